@@ -111,6 +111,6 @@ func init() {
 		New:      func() any { return &C11Case{} },
 		Check:    func(c any) Result { return checkC11(c.(*C11Case)) },
 		Quick:    4000,
-		Thorough: 20000,
+		Thorough: 250000,
 	})
 }
